@@ -54,7 +54,7 @@ IRC_REQUIRED = ['ctor_' + n for n in IRC_FUNCS] + [
     'irc_line_event_observed', 'irc_roundtrip_evaluated', 'irc_arg_with_space', 'irc_arg_with_colon', 'irc_arg_with_cr',
     'irc_arg_with_lf', 'irc_arg_with_nul', 'irc_arg_empty', 'irc_arg_non_ascii', 'irc_arg_bytes', 'irc_arg_none',
     'irc_hostile_command', 'irc_hostile_prefix', 'irc_prefix_nick_user_host', 'irc_late_args_mutation',
-    'irc_all_command_functions_called', 'irc_benign_call_serialised', 'irc_same_line_received_twice', 'irc_numeric_line_received_twice', 'irc_prefix_given_as_object']
+    'irc_all_command_functions_called', 'irc_benign_call_serialised', 'irc_same_line_received_twice', 'irc_numeric_line_received_twice', 'irc_prefix_given_as_object', 'irc_component_with_another_encoding']
 REQUIRED = LINE_REQUIRED + IRC_REQUIRED
 REQUIRED_OBLIGATIONS = ['LINES', 'TAIL_HELD', 'ISOLATION', 'ONE_LINE', 'ROUNDTRIP']
 WORKER_TIMEOUT = {'quick': 300, 'thorough': 1500}
@@ -573,16 +573,20 @@ def run_irc_case(case):
         res['triggers'].add(K_WS)
     # -- 2. serialise, directly and through IRC.request -> write -------------------------------------
     data = text = None
+    enc = case.get('encoding', 'utf-8')      # the encoding option of the IRC components at both ends
+    if enc != 'utf-8':
+        marks.add('irc_component_with_another_encoding')
     try:
-        data = bytes(msg)
         text = str(msg)
+        # what a component configured with `enc` has to put on the wire (computed here from the text form, without touching the message)
+        data = bytes(msg) if enc == 'utf-8' else text.encode(enc)
     except Exception as e:
         marks.add('irc_rejected_by_serialiser')
         res['rejected'] = type(e).__name__
         if irc_benign(case):
             problems.append(('ONE_LINE', {'problem': 'a message with harmless fields was rejected by bytes()/str()', 'error': repr(e)}, 'benign-rejected'))
     w = h['Rec']()
-    h['IRC']().register(w)
+    (h['IRC']() if enc == 'utf-8' else h['IRC'](encoding=enc)).register(w)
     w.settle()
     w.take()
     w.inject(ev)
@@ -631,7 +635,7 @@ def run_irc_case(case):
     oblig['ROUNDTRIP'] += 1
     line = got[0]
     try:
-        ptuple, pcmd, pargs = h['parsemsg'](line)
+        ptuple, pcmd, pargs = h['parsemsg'](line) if enc == 'utf-8' else h['parsemsg'](line, encoding=enc)
         pprefix = join_prefix_tuple(ptuple)
     except Exception as e:
         problems.append(('ROUNDTRIP', {'problem': 'parsemsg raised', 'error': repr(e), 'line': line}, 'raised'))
@@ -641,7 +645,7 @@ def run_irc_case(case):
     #       gives the same fields every time - whatever an earlier reception did with what it was handed
     try:
         rx = h['Rec']()
-        irc = h['IRC']().register(rx)
+        irc = (h['IRC']() if enc == 'utf-8' else h['IRC'](encoding=enc)).register(rx)
         rx.settle()
         seen = []
         for _ in range(2):
@@ -649,7 +653,17 @@ def run_irc_case(case):
             rx.fire(h['read'](data), irc.channel)
             rx.settle()
             seen.append([(n, repr(a)) for n, a in rx.all[n0:] if n not in ('read', 'line', 'exception') and not n.endswith(('_done', '_success', '_complete', '_failure'))])
-        again = h['parsemsg'](line)
+        again = h['parsemsg'](line) if enc == 'utf-8' else h['parsemsg'](line, encoding=enc)
+        # what the receiving component hands to the application is the direct parse of the line (numeric replies carry their number first)
+        want_ev = None
+        if pcmd and not any(ch in pcmd for ch in '\x00'):
+            if NUMERIC_CMD.match(pcmd):
+                want_ev = ('numeric', repr((ptuple, int(pcmd)) + tuple(pargs)))
+            else:
+                want_ev = (pcmd.lower(), repr((ptuple,) + tuple(pargs)))
+        if want_ev is not None and seen[0] and seen[0][0] != want_ev and len(seen[0]) == 1:
+            problems.append(('ROUNDTRIP', {'problem': 'the event a receiving IRC component fires differs from the parse of the line', 'line': line,
+                                           'event': list(seen[0][0]), 'expected': list(want_ev), 'encoding': enc}, 'component'))
         oblig['ROUNDTRIP'] += 1
         marks.add('irc_same_line_received_twice')
         if NUMERIC_CMD.match(pcmd or ''):
@@ -665,7 +679,7 @@ def run_irc_case(case):
     if ptuple != (None, None, None) and ptuple[1] is not None:
         marks.add('irc_prefix_nick_user_host')
     if (pprefix, pcmd, pargs) != (own_prefix, own_cmd, own_args):
-        rp = ref_parse_irc(line.decode('utf-8', 'replace'))
+        rp = ref_parse_irc(line.decode(enc, 'replace'))
         diff = [n for n, x, y in (('prefix', pprefix, own_prefix), ('command', pcmd, own_cmd), ('args', pargs, own_args)) if x != y]
         problems.append(('ROUNDTRIP', {
             'problem': 'parsemsg(serialised) differs from the message', 'differs_in': diff, 'line': line,
@@ -840,6 +854,13 @@ def irc_matrix():
         cases.append({'kind': 'irc', 'ctor': 'Message', 'command': hs, 'prefix': None, 'args': ['nick', 'Hello World']})
         cases.append({'kind': 'irc', 'ctor': 'Message', 'command': 'NOTICE', 'prefix': hs, 'args': ['nick', 'Hello World']})
         cases.append({'kind': 'irc', 'ctor': 'Message', 'command': hs, 'prefix': hs, 'args': []})
+    # IRC components configured with another encoding at both ends: non-ASCII text survives the component path
+    for enc in ('latin-1', 'cp1252', 'utf-8'):
+        for args in (['#caf\xe9', 'caf\xe9 au lait'], ['nick', 'na\xefve \xfcber'], ['#chan', 'plain ascii'], ['\xe9']):
+            for cmd in ('PRIVMSG', 'NOTICE', '372'):
+                cases.append({'kind': 'irc', 'ctor': 'Message', 'command': cmd, 'prefix': 'n\xe9!u@h', 'args': list(args), 'encoding': enc})
+        cases.append({'kind': 'irc', 'ctor': 'PRIVMSG', 'args': ['#caf\xe9', 'd\xe9j\xe0 vu'], 'encoding': enc})
+        cases.append({'kind': 'irc', 'ctor': 'TOPIC', 'args': ['#chan', 'caf\xe9'], 'encoding': enc})
     for cmd in COMMANDS:
         for prefix in PREFIXES:
             for last in BENIGN_LAST:
@@ -907,6 +928,8 @@ def gen_irc_case(rng):
             case['prefix_obj'] = True
         if rng.random() < 0.15:
             case['late'] = [gen_str(rng, True) for _ in range(rng.choice([1, 1, 2]))]
+    if rng.random() < 0.15:
+        case['encoding'] = rng.choice(['latin-1', 'cp1252'])
     return case
 
 
@@ -988,5 +1011,5 @@ LEVEL_TEXT = ('Part 1: for every executed case the line events emitted after eac
               'before its final CRLF or the call was rejected, a real Line sees exactly one line, parsemsg gives the fields back. Held '
               'means no unexplained mismatch on the cases run; sampling outside the stated exhaustive bounds.')
 LEVEL_NOTE = ('Trusted: vlib.ref_lines.ref_split as the meaning of "the lines contained in a byte stream"; the harness-owned per-socket '
-              'buffer dict in server mode; utf-8 only. Failures caused by the three recorded IRC defects are attributed only when the same '
+              'buffer dict in server mode; IRC components with utf-8 (mostly), latin-1 and cp1252 at both ends. Failures caused by the three recorded IRC defects are attributed only when the same '
               'call with just that trigger replaced by "_" is serialised and satisfies every obligation.')
